@@ -329,15 +329,56 @@ def build(ctx, san=True):
     return mixed, outs[0], (outs[1] if san else None), out
 
 
+def params_hook(ctx):
+    # operator tables / constants re-read from ctx.repo into coq/Params_gen.v (tools/params.d/C16.py)
+    V.sh([sys.executable, os.path.join(V.VERIF, "tools", "extract_params.py"), ctx.repo], check=True)
+    try:
+        rep = json.load(open(os.path.join(V.VERIF, "build", "params_report.json")))
+        mine = {k: v for k, v in rep.items() if k.startswith("c16_")}
+        ctx.coverage["translated_constants"] = mine
+        missing = [k for k, v in mine.items() if v.get("source") != "extracted"]
+        if missing:
+            ctx.notes.append("constants not located in the source, committed defaults used: %s" % missing)
+    except Exception as e:
+        ctx.notes.append("params report unreadable: %s" % e)
+
+
+RACE = "inconsistent assumptions"      # another check rebuilt coq/Params_gen.vo between two separately locked coqc calls of lib/vcheck.py
+
+
+def coq_stage_retry(ctx):
+    for attempt in range(4):
+        n = len(ctx.viol)
+        if V.coq_stage(ctx):
+            return True
+        if RACE in (ctx.coq or {}).get("log", "") and attempt < 3:
+            del ctx.viol[n:]
+            ctx.log("coq stage hit a concurrent rebuild of Params_gen.vo, retrying")
+            continue
+        return False
+
+
+def build_model_retry(ctx):
+    for attempt in range(4):
+        try:
+            return V.build_model(ctx)
+        except V.BuildError as e:
+            if RACE in str(e) and attempt < 3:
+                ctx.log("model build hit a concurrent rebuild of Params_gen.vo, retrying")
+                continue
+            raise
+
+
 def run(ctx):
-    V.coq_stage(ctx)
+    ctx.params_hook = params_hook
+    coq_stage_retry(ctx)
     if not ctx.quick:
         rc, out = V.sh(["coqchk", "-o", "-silent", "-Q", ".", "DuneV", "DuneV.Properties_C16"], cwd=V.COQ, timeout=1800)
         ax = re.search(r"\* Axioms:\s*(.*?)\n\s*\n", out, re.S)
         ctx.coverage["coqchk"] = {"rc": rc, "axioms": (ax.group(1).strip() if ax else "?")}
         if rc != 0:
             ctx.violation("coq:coqchk", {"broken": "coqchk rejects the compiled C16 development", "log": out[-2000:]}, found_input=False)
-    model = V.build_model(ctx)
+    model = build_model_retry(ctx)
     mixed, impl, impl_san, probe_log = build(ctx)
     ctx.log("ArrayList const/mutable ordering operators compile: %s" % mixed)
     cases = gen(ctx)
